@@ -31,8 +31,11 @@ _GENERIC = ("Deductive tier: the contracts tagged with this property are dischar
             "stand-in executes the real code natively against the property's clauses on the stated scope; it is labelled "
             "bounded and never counted as discharged. ")
 
-prop("C02", "other", _GENERIC + "Proved: wire Parser primitives every codec is built on (exact consumption, FormError on short input). "
-     "Per-type codec round trips are bounded.", needs_obligations=True)
+prop("C02", "other", _GENERIC + "Proved: wire Parser primitives every codec is built on (exact consumption, FormError on short input) and "
+     "the relational wire round trip of 24 record classes discovered by walking dns/rdtypes (for arbitrary octets w: if decode(w) "
+     "returns x having consumed w, encode(x) cannot fail and decode(encode(x)) equals x field by field, consuming exactly, so the "
+     "encoding is a fixed point). Classes with embedded names, item loops, address text or floats are listed in "
+     "contracts/rdtypes.py:NOT_ATTEMPTED with the reason and are covered by the bounded stand-in only.", needs_obligations=True)
 prop("C03", "other", _GENERIC + "Proved: rcode/opcode flag codecs and their round-trip lemmas; Renderer._rollback (buffer cut, table "
      "purged: no entry at or beyond the cut survives, entries below it are untouched), _set_section, add_question (removed whole on "
      "TooBig), and the table discipline of Name.to_wire with a file (entries only at offsets written by the call, <= 0x3FFF; thorough "
